@@ -27,7 +27,11 @@ def main():
         m = json.load(open(f))
         c = m.get("check", {})
         keys = [l.strip()[5:].strip() for l in c.get("lines", []) if l.strip().startswith("key:")]
-        det = "yes" if m.get("detected") else "NO"
+        det = "yes" if m.get("detected") else ("by %s" % m["detected_by_other"] if m.get("detected_by_other") else "NO")
+        if not m.get("detected") and m.get("detected_by_other"):
+            for o in m.get("other_checks", []):
+                if o["property"] == m["detected_by_other"]:
+                    keys = [l.strip()[5:].strip() for l in o.get("lines", []) if l.strip().startswith("key:")]
         rows.append((m["name"], m["property"], m["needs_to_manifest"], det, "<br>".join("`%s`" % k for k in keys[:3]), NOTES.get(m["name"], "")))
     print("| seeded change | property | needs, in order to manifest | caught by the property's quick check | first keys | what it took |")
     print("|---|---|---|---|---|---|")
@@ -35,8 +39,9 @@ def main():
         print("| %s | %s | %s | %s | %s | %s |" % r)
     n = len(rows)
     d = sum(1 for r in rows if r[3] == "yes")
+    o = sum(1 for r in rows if r[3].startswith("by "))
     print()
-    print("%d of %d seeded changes are caught by the quick check of the property they were written against." % (d, n))
+    print("%d of %d seeded changes are caught by the quick check of the property they were written against, %d more by the check of a related property (named in the column), %d by none." % (d, n, o, n - d - o))
 
 
 if __name__ == "__main__":
